@@ -9,6 +9,8 @@ fn main() {
   match which {
     "replay" => vh::replay::run(&args[2]),
     "c01" => vh::engines::c01::run(),
+    "c02gen" => vh::engines::c02::generate(),
+    "c02report" => vh::engines::c02::report(),
     "c06" => vh::engines::c06::run(),
     "c07" => vh::engines::c07::run(),
     "c09" => vh::engines::c09::run(),
